@@ -103,11 +103,84 @@ def invClauses (k k' : Fr) (str str' : String) : List (String × Bool) :=
       ("orbifold-symbol-unchanged-up-to-boundary-rotation-and-reversal", sameOrbifold o o') ]
   | _, _ => [("symbols-are-in-the-orbifold-symbol-language", false)]
 
+/-! ### symbols that are not connected (op `geod`) -/
+
+/-- the answers taken one by one: `!` where the model of that call panics -/
+def sepK (y : Sym) : List String :=
+  match curvature y with
+  | .ok k => [toString k.num, toString k.den]
+  | _ => ["!", "!"]
+
+def sepB (o : Outcome Bool) : String :=
+  match o with
+  | .ok true => "1"
+  | .ok false => "0"
+  | _ => "!"
+
+def sepS (y : Sym) : String :=
+  match orbifoldSymbolString y with
+  | .ok str => str
+  | _ => "!"
+
+def sepAnswers (y : Sym) : List String :=
+  sepK y ++ [sepB (isEuclidean y), sepB (isHyperbolic y), sepB (isSpherical y), sepS y]
+
+/-- the part `c` of a labelled table, chambers renumbered in increasing order -/
+def partRaw (s : RawSym) (lab : Nat → Nat) (c : Nat) : RawSym :=
+  let ch := ((List.range s.size).map (· + 1)).filter fun d => lab d == c
+  let num (d : Nat) : Nat := (ch.takeWhile (· != d)).length + 1
+  { size := ch.length, dim := s.dim,
+    op := (ch.flatMap fun d => (List.range (s.dim + 1)).map fun i => num (s.opAt i d)).toArray,
+    v := ((List.range s.dim).flatMap fun i => ch.map fun d => s.vAt i d).toArray }
+
+/-- one answer of the implementation: a fraction, or `none` if the call panicked -/
+def parseKOpt : P (Option Fr) := do
+  let a ← P.tok
+  let b ← P.tok
+  match a.toInt?, b.toNat? with
+  | some n, some d => pure (some ⟨n, d⟩)
+  | _, _ => if a == "!" && b == "!" then pure none else failure
+
+def parseBOpt : P (Option Bool) := do
+  let a ← P.tok
+  if a == "1" then pure (some true) else if a == "0" then pure (some false)
+  else if a == "!" then pure none else failure
+
+structure AnsSep where
+  k : Option Fr
+  e : Option Bool
+  h : Option Bool
+  s : Option Bool
+  str : String
+
+def parseAnsSep : P AnsSep := do
+  let k ← parseKOpt
+  let e ← parseBOpt
+  let h ← parseBOpt
+  let s ← parseBOpt
+  let str ← P.tok
+  pure { k := k, e := e, h := h, s := s, str := str }
+
+/-- clauses about one representation's answers on a complete 2D symbol that need not be connected:
+    only what holds by the definition of the curvature (the orbifold symbol and `is_spherical` of a
+    symbol that is not connected are outside the property's quantifier) -/
+def sepClauses (g : G) (tag : String) (a : AnsSep) (parts : List (Option Fr)) : List (String × Bool) :=
+  match a.k with
+  | none => [(s!"{tag}-curvature-answers-on-every-complete-2d-symbol", false)]
+  | some k =>
+    [ (s!"{tag}-curvature-is-sum-over-chambers-of-1/m01+1/m12-1/2", Fr.eqv k g.curvature),
+      (s!"{tag}-curvature-is-the-sum-of-the-curvatures-of-the-parts",
+        parts.all (·.isSome) && Fr.eqv k (Fr.sum (parts.map fun p => p.getD ⟨0, 1⟩))),
+      (s!"{tag}-euclidean-iff-curvature-zero", a.e == some k.isZero),
+      (s!"{tag}-hyperbolic-iff-curvature-negative", a.h == some k.isNeg) ]
+
 def handler : Handler := fun op inp out =>
   let bad := ("-", fail "driver-cannot-parse-input")
   let panicked := out == #["PANIC"]
   match op with
-  | "geo" =>
+  | "geo" | "geov" =>
+    -- `geov`: the same five answers in both representations on a variant of an explored symbol
+    -- (its renumbering, its library dual)
     match run P.rawSym inp with
     | some s =>
       let g := specG s
@@ -136,6 +209,72 @@ def handler : Handler := fun op inp out =>
           [("representations-agree",
             Fr.eqv a.k b.k && a.e == b.e && a.h == b.h && a.s == b.s && a.str == b.str)]))
       | none => (m, fail "answers-missing")
+    | none => bad
+  | "geod" =>
+    -- complete 2D symbols that are not connected (outside the property's quantifier): every
+    -- answer of the model is compared separately; the Spec only holds the curvature to its
+    -- definition (chamber sum, hence additive over the parts)
+    match run (do let s ← P.rawSym; let k ← P.nat; let lab ← P.nats; pure (s, k, lab)) inp with
+    | some (s, k, lab) =>
+      let labf (d : Nat) : Nat := lab.getD (d - 1) 0
+      let partsRaw := (List.range k).map fun c => partRaw s labf (c + 1)
+      let m : String :=
+        match symOf s .partialSym, symOf s .simpleSym with
+        | some y, some y' =>
+          let ps := partsRaw.map fun p => (symOf p .partialSym).map fun yp => sepK yp ++ [sepS yp]
+          if ps.any (·.isNone) then "PANIC"
+          else joinToks (sepAnswers y ++ sepAnswers y' ++ ps.flatMap fun p => p.getD [])
+        | _, _ => "PANIC"
+      if panicked then (m, fail "harness-catches-every-panic-of-geod") else
+      match run (do
+          let a ← parseAnsSep; let b ← parseAnsSep
+          let ps ← P.rep k (do let kk ← parseKOpt; let _ ← P.tok; pure kk)
+          pure (a, b, ps)) out with
+      | some (a, b, ps) =>
+        let g := specG s
+        let chambers := (List.range s.size).map (· + 1)
+        (m, check (
+          [("input-is-a-complete-2d-symbol", s.dim == 2 && g.wellFormed),
+           ("parts-are-unions-of-components",
+             chambers.all fun d => 1 ≤ labf d && labf d ≤ k &&
+               [0, 1, 2].all fun i => labf (s.opAt i d) == labf d),
+           ("parts-are-complete-2d-symbols", partsRaw.all fun p => p.dim == 2 && (specG p).wellFormed)] ++
+          sepClauses g "partial" a ps ++ sepClauses g "simple" b ps))
+      | none => (m, fail "answers-missing")
+    | none => bad
+  | "geog" =>
+    -- symbols yielded by the library's own generator over the D-set of the input: the tables of
+    -- every yielded symbol come back with the answers on the yielded `SimpleDSym` itself and on
+    -- a `PartialDSym` rebuilt from these tables; the model payload repeats the tables and gives
+    -- the model's answers, the Spec clauses are those of `geo`
+    match run P.rawSym inp with
+    | some s0 =>
+      if panicked then ("-", fail "no-panic-on-complete-2d-symbol") else
+      match run (do
+          let k ← P.nat
+          P.rep k (do
+            let size ← P.nat
+            let dim ← P.nat
+            let op ← P.rep (size * (dim + 1)) P.nat
+            let v ← P.rep (dim * size) P.nat
+            let a ← parseAns
+            let b ← parseAns
+            pure (({ size := size, dim := dim, op := op.toArray, v := v.toArray } : RawSym), a, b))) out with
+      | some items =>
+        let encRaw (s : RawSym) : List String :=
+          toString s.size :: toString s.dim :: (s.op.toList.map toString ++ s.v.toList.map toString)
+        let m := payload (some [toString items.length] :: items.flatMap fun (s, _, _) =>
+          [some (encRaw s), (symOf s .simpleSym).bind modelAnswers, (symOf s .partialSym).bind modelAnswers])
+        let chambers := (List.range s0.size).map (· + 1)
+        (m, check (items.flatMap fun (s, a, b) =>
+          let g := specG s
+          [("generated-symbol-is-a-complete-2d-symbol", s.dim == 2 && g.wellFormed),
+           ("generated-symbol-lives-on-the-given-D-set",
+             s.size == s0.size && chambers.all fun d => [0, 1, 2].all fun i => s.opAt i d == s0.opAt i d)] ++
+          geoClauses g "generated-simple" a ++ geoClauses g "rebuilt-partial" b ++
+          [("representations-agree",
+            Fr.eqv a.k b.k && a.e == b.e && a.h == b.h && a.s == b.s && a.str == b.str)]))
+      | none => ("-", fail "answers-missing")
     | none => bad
   | "geo1" =>
     -- outside the property's quantifier (dim ≠ 2 or incomplete): model observable only
@@ -180,19 +319,31 @@ def handler : Handler := fun op inp out =>
       | none => (m, fail "answers-missing")
     | none => bad
   | "cover" =>
-    match run (do let s ← P.rawSym; let k ← P.nat; let c ← P.rawSym; pure (s, k, c)) inp with
-    | some (s, k, c) =>
-      let m := payload [(symOf s .partialSym).bind modelK, (symOf c .partialSym).bind modelK]
+    -- optional last input token 1: the cover itself also went through the five functions in both
+    -- representations (answers appended to the output; clauses of `geo` on the cover)
+    match run (do let s ← P.rawSym; let k ← P.nat; let c ← P.rawSym; let t ← (P.nat <|> pure 0); pure (s, k, c, t)) inp with
+    | some (s, k, c, take) =>
+      let m := payload ([(symOf s .partialSym).bind modelK, (symOf c .partialSym).bind modelK] ++
+        (if take == 1 then [(symOf c .partialSym).bind modelAnswers, (symOf c .simpleSym).bind modelAnswers] else []))
       if panicked then (m, fail "no-panic-on-complete-2d-symbol") else
-      match run (do let a ← parseK; let b ← parseK; pure (a, b)) out with
-      | some (a, b) =>
+      match run (do
+          let a ← parseK; let b ← parseK
+          let xs ← (if take == 1 then (do let x ← parseAns; let y ← parseAns; pure [x, y]) else pure [])
+          pure (a, b, xs)) out with
+      | some (a, b, xs) =>
         let g := specG s
         let gc := specG c
-        (m, check [
+        (m, check ([
           ("input-is-a-complete-2d-symbol", s.dim == 2 && g.wellFormed),
           ("cover-is-a-complete-2d-symbol", c.dim == 2 && gc.wellFormed),
           ("cover-is-a-k-sheeted-covering", g.isCovering gc k (fun e => (e - 1) % g.size + 1)),
-          ("curvature-multiplied-by-sheet-number", Fr.eqv b (Fr.scale (k : Int) a))])
+          ("curvature-multiplied-by-sheet-number", Fr.eqv b (Fr.scale (k : Int) a))] ++
+          (match xs with
+           | [x, y] =>
+             geoClauses gc "cover-partial" x ++ geoClauses gc "cover-simple" y ++
+             [("cover-representations-agree",
+               Fr.eqv x.k y.k && x.e == y.e && x.h == y.h && x.s == y.s && x.str == y.str)]
+           | _ => [])))
       | none => (m, fail "answers-missing")
     | none => bad
   | _ => ("-", fail s!"driver-unknown-op-{op}")
